@@ -139,6 +139,22 @@ void runS(const Req& r, Resp& R) {
     TOperand<T, S> t(a.data()); pushM(out, t.get().smallAdj());
   } else if (op == "hat" && need(DoF)) {
     TOperand<T, S> t(a.data()); pushM(out, t.get().hat());
+  } else if (op == "bracket" && need(2 * DoF)) {
+    TOperand<T, S> ta(a.data()), tb(a.data() + DoF);
+    T res = ta.get().bracket(tb.get());
+    pushM(out, res.coeffs());
+  } else if (op == "inner" && need(2 * DoF)) {
+    TOperand<T, S> ta(a.data()), tb(a.data() + DoF);
+    out.push_back(ta.get().inner(tb.get()));
+  } else if (op == "sqwnorm" && need(DoF)) {
+    TOperand<T, S> ta(a.data()); out.push_back(ta.get().squaredWeightedNorm());
+  } else if (op == "wnorm" && need(DoF)) {
+    TOperand<T, S> ta(a.data()); out.push_back(ta.get().weightedNorm());
+  } else if (op == "vee" && need((size_t)(T::LieAlg::RowsAtCompileTime * T::LieAlg::ColsAtCompileTime))) {
+    typename T::LieAlg A;
+    for (int i = 0; i < A.rows(); ++i) for (int j = 0; j < A.cols(); ++j) A(i, j) = a[i * A.cols() + j];
+    T res = T::Vee(A);
+    pushM(out, res.coeffs());
   } else if (op == "generator" && need(0) && r.ints.size() == 1) {
     pushM(out, T::Generator((int)r.ints[0]));
   } else if (op == "innerWeights" && need(0)) {
